@@ -329,8 +329,9 @@ def Pool.promoteExecutables (s : Pool) (accounts : Option (List Addr)) (slots qo
   let s := s.slotEvict slots
   s.queueEvict qorder
 
-/-- the per-account body of demoteUnexecutables. `gapFix = false`: the code as written (only a gap in FRONT of the
-    list is detected); `gapFix = true`: the proposed patch (cut at the first missing nonce). -/
+/-- the per-account body of demoteUnexecutables. `gapFix = true`: the code at HEAD (commit c2af732: everything from the
+    first missing nonce on is postponed); `gapFix = false`: the code before c2af732 (only a gap in FRONT of the list was
+    detected), kept to document the defect that commit fixed. -/
 def Pool.demoteAcct (gapFix : Bool) (s : Pool) (a : Addr) : Pool :=
   let p := s.pending a
   let n := s.cnonce a
@@ -472,7 +473,8 @@ inductive Op
   | reset (v : View) (oldNum newNum : Nat) (reorg : Bool) (disc inc : List Tx) (o : ResetOracle)
   | evictIdle (a : Addr)
 
-/-- one step of the pool state machine; `gapFix` selects the demotion variant (see `demoteAcct`) -/
+/-- one step of the pool state machine; `gapFix = true` is the code at HEAD, `false` the demotion before commit c2af732
+    (see `demoteAcct`) -/
 def Pool.step (gapFix : Bool) (s : Pool) : Op → Pool
   | .add t loc sh vs sl qo => (s.addTx t loc sh vs sl qo).2
   | .adds ts loc vs sl qo => (s.addTxs ts (loc && !s.cfg.noLocals) vs sl qo).2
